@@ -140,7 +140,7 @@ def run(ctx):
         # every engine is used, but spread over the cases (3 per case) to keep the quick tier short
         pass
     cases = answers.load_corpus("C11")
-    cases += answers.gen_cases(ctx, 70 if quick else 1200, (2, 5), (1, 6), [False], ties=0.5, consts=0.08, rekey=0.3, big=0.08)
+    cases += answers.gen_cases(ctx, 70 if quick else 1200, (2, 5), (1, 6), [False], ties=0.5, consts=0.08, rekey=0.3, big=0.08, cost=0.12)
     cases += answers.gen_cases(ctx, 40 if quick else 800, (2, 5), (1, 6), [True], ties=0.4, consts=0.12, rekey=0.3)
     jobs = []
     for c in cases:
